@@ -47,5 +47,7 @@ def install():
             return sym_format(obj, format_spec)
         return orig(obj, format_spec)
     core._PATCH_REGISTRATIONS[format] = _format
+    from crosshair.tracers import COMPOSITE_TRACER
+    COMPOSITE_TRACER.patching_module.nextfn[(orig.__code__, format)] = format
     SymbolicInt.__format__ = sym_format
     SymbolicInt.__str__ = lambda self: sym_format(self, '')
